@@ -40,6 +40,7 @@ import builtins
 import contextlib
 import inspect
 import json
+import traceback
 from datetime import timedelta
 
 from mc import choice, common
@@ -54,6 +55,23 @@ from operon_ai.organelles.nucleus import Nucleus
 from operon_ai.providers import LLMResponse, ProviderConfig, ToolCall
 
 SLACK = 2  # answers beyond the budget before a loop is cut
+
+
+def _documented_default(fn, name, documented):
+    """The budget that applies when the caller omits limit `name`: the default written in the public signature of `fn`
+    when that is an int, else the value the documentation states.  Never the value of an attribute of a live object:
+    the budget is what the caller passed or what the documentation promises, not what the implementation stores."""
+    try:
+        d = inspect.signature(fn).parameters[name].default
+    except (KeyError, TypeError, ValueError):
+        return documented
+    return d if isinstance(d, int) and not isinstance(d, bool) and d >= 0 else documented
+
+
+def _attr_differs(obj, name, expected):
+    """Observation only: does the public attribute `name` of obj (if there is one) show the budget in force?"""
+    got = getattr(obj, name, expected)
+    return None if got == expected and type(got) is type(expected) else repr(got)
 
 
 class EnvError(Exception):
@@ -202,6 +220,11 @@ class BlankChaperone(Chaperone):
         return res
 
 
+DEFAULT_MAX_RETRIES = _documented_default(ChaperoneLoop, "max_retries", 3)
+DEFAULT_MAX_REGENERATIONS = _documented_default(RegenerativeSwarm, "max_regenerations", 3)
+DEFAULT_MAX_STEPS = _documented_default(RegenerativeSwarm, "max_steps_per_worker", 10)
+DEFAULT_MAX_ITERATIONS = _documented_default(Nucleus.transcribe_with_tools, "max_iterations", 10)
+
 CHAPERONES = {"tracing": TracingChaperone, "stock": Chaperone, "blank": BlankChaperone}
 GEN_KINDS = ("valid", "junk", "schema-invalid", "echo", "empty", "null", "same") + RAISES
 
@@ -250,9 +273,13 @@ def _heal_session(cfg, ch, v):
         kw["max_retries"] = cfg["max_retries"]
     if cfg.get("decay") is not None:
         kw["confidence_decay"] = cfg["decay"]
-    loop = ChaperoneLoop(generator=generator, chaperone=chap, schema=Quote, silent=silent, **kw)
-    max_retries = loop.max_retries if cfg["max_retries"] is None else cfg["max_retries"]  # omitted -> documented default
+    # the budget is what the caller passed; omitted -> the documented default
+    max_retries = DEFAULT_MAX_RETRIES if cfg["max_retries"] is None else cfg["max_retries"]
     budget = st["budget"] = max_retries + 1
+    loop = ChaperoneLoop(generator=generator, chaperone=chap, schema=Quote, silent=silent, **kw)
+    odd = _attr_differs(loop, "max_retries", max_retries)
+    if odd is not None:
+        v.append(("obs:heal-max_retries-attribute-differs-from-budget-in-force", f"budget {max_retries}, attribute {odd}"))
     obs_all = []
     for _call_no in range(cfg.get("calls", 1)):
         calls = st["calls"] = []
@@ -412,6 +439,15 @@ class _Worker:
 
 def _swarm_session(cfg, ch, v):
     R, S, ncalls = cfg["max_regenerations"], cfg["max_steps"], cfg.get("calls", 1)
+    kw = {}
+    if R is not None:
+        kw["max_regenerations"] = R
+    else:  # omitted -> documented default
+        R = DEFAULT_MAX_REGENERATIONS
+    if S is not None:
+        kw["max_steps_per_worker"] = S
+    else:
+        S = DEFAULT_MAX_STEPS
     thrower = Thrower()
     env = {"ch": ch, "S": S, "R": R, "nsteps": 0, "workers": [], "last_output": None, "summaries": 0,
            "thrower": thrower, "record": cfg.get("record", True), "step_kinds": _kinds(STEP_KINDS, cfg, "step_first")}
@@ -444,19 +480,14 @@ def _swarm_session(cfg, ch, v):
             return STOCK_SUMMARIZER(memory)
         return [f"previous worker made {len(getattr(memory, 'output_history', ()))} attempts"]
 
-    kw = {}
-    if R is not None:
-        kw["max_regenerations"] = R
-    if S is not None:
-        kw["max_steps_per_worker"] = S
     if cfg.get("timeout0"):
         kw["step_timeout"] = timedelta(0)
     swarm = RegenerativeSwarm(worker_factory=factory, summarizer=summariser, entropy_threshold=cfg["threshold"],
                               silent=cfg.get("silent", True), **kw)
-    if R is None:  # omitted -> documented defaults
-        R = env["R"] = swarm.max_regenerations
-    if S is None:
-        S = env["S"] = swarm.max_steps_per_worker
+    for name, val in (("max_regenerations", R), ("max_steps_per_worker", S)):
+        odd = _attr_differs(swarm, name, val)
+        if odd is not None:
+            v.append((f"obs:swarm-{name}-attribute-differs-from-budget-in-force", f"budget {val}, attribute {odd}"))
     obs_all = []
     for _call_no in range(ncalls):
         env["workers"] = []
@@ -517,7 +548,6 @@ def run_swarm(cfg, ch):
 ROUND_KINDS = ("final", "one-call", "two-calls", "unknown-tool", "final-none", "empty-args", "same-calls") + RAISES
 TOOL_KINDS = ("returns", "falsy", "raises")
 COMPLETE_KINDS = ("returns", "blank") + RAISES
-DEFAULT_MAX_ITERATIONS = inspect.signature(Nucleus.transcribe_with_tools).parameters["max_iterations"].default
 
 
 class _Provider:
@@ -727,11 +757,11 @@ def horizon_of(cfg):
     h = cfg["harness"]
     calls = cfg.get("calls", 1)
     if h == "heal":
-        m = 3 if cfg["max_retries"] is None else cfg["max_retries"]
+        m = DEFAULT_MAX_RETRIES if cfg["max_retries"] is None else cfg["max_retries"]
         return calls * (m + 1 + SLACK) + 2
     if h == "swarm":
-        R = 3 if cfg["max_regenerations"] is None else cfg["max_regenerations"]
-        S = 10 if cfg["max_steps"] is None else cfg["max_steps"]
+        R = DEFAULT_MAX_REGENERATIONS if cfg["max_regenerations"] is None else cfg["max_regenerations"]
+        S = DEFAULT_MAX_STEPS if cfg["max_steps"] is None else cfg["max_steps"]
         return calls * ((R + 1 + SLACK) * (S + SLACK + 2)) + 2
     M = DEFAULT_MAX_ITERATIONS if cfg["max_iterations"] is None else cfg["max_iterations"]
     return calls * ((M + SLACK) * 3 + SLACK + 2) + 4
@@ -753,7 +783,7 @@ def configs(tier):
     for m in list(range(top + 1)) + [None]:
         for chap in ("tracing", "stock", "blank"):
             for var in HEAL_VARIANTS:
-                est = 6 ** ((3 if m is None else m) + 1)
+                est = 6 ** ((DEFAULT_MAX_RETRIES if m is None else m) + 1)
                 out.append({"harness": "heal", "max_retries": m, "chaperone": chap, **var,
                             "max_dev": _bound(tier, est, var.get("calls", 1)), "split": est >= 500})
     for R in list(range(top + 1)) + [None]:
@@ -761,7 +791,7 @@ def configs(tier):
             if (R is None) != (S is None):
                 continue
             for var in SWARM_VARIANTS:
-                est = (3 ** (10 if S is None else S) * 4) ** ((3 if R is None else R) + 1)
+                est = (3 ** (DEFAULT_MAX_STEPS if S is None else S) * 4) ** ((DEFAULT_MAX_REGENERATIONS if R is None else R) + 1)
                 dev = _bound(tier, est, var.get("calls", 1))
                 if R is None:
                     dev = 3 - var.get("calls", 1)  # documented defaults (3 regenerations x 10 steps): the never-succeeding path and its neighbours
@@ -843,7 +873,13 @@ def _explore(run, root, lo, hi, max_dev, horizon):
             res = run(ch)
         except choice.TooManyChoices as e:
             res = ("too-many-choices", str(e))
+        except Exception as e:  # noqa: BLE001
+            # a harness step outside the judged calls (building the objects, reading the result) failed on this tree:
+            # never an uncaught traceback -- the run goes on and the failure is a deferred harness error
+            res = ("harness-step-failed", f"{type(e).__name__}: {e}", traceback.format_exc()[-1200:])
         yield ch, res
+        if res and res[0] == "harness-step-failed":
+            continue
         if _violating(res):
             continue  # a violating execution is reported and not expanded (a runaway loop would inflate the tree)
         devs = 0
@@ -881,8 +917,12 @@ def explore_task(task):
     outcomes = set()
     viols = {}
     notes = {}
+    broken = {}
     for ch, res in _explore(run, root, lo, None, cfg["max_dev"], horizon_of(cfg)):
         execs += 1
+        if isinstance(res, tuple) and res and res[0] == "harness-step-failed":
+            broken.setdefault(res[1], [res[1], res[2], {"cfg": cfg, "choices": ch.labelled()}, 0])[3] += 1
+            continue
         t, p = len(ch.trace), _last_dev(ch.trace)
         nodes += t - p + 1 if p else t + 1
         case = {"cfg": cfg, "choices": ch.labelled()}
@@ -897,7 +937,8 @@ def explore_task(task):
                 notes[key] = notes.get(key, 0) + 1
                 continue
             viols.setdefault(key, [key, what, case, 0])[3] += 1
-    return {"nodes": nodes, "execs": execs, "outcomes": outcomes, "viols": list(viols.values()), "notes": notes}
+    return {"nodes": nodes, "execs": execs, "outcomes": outcomes, "viols": list(viols.values()), "notes": notes,
+            "broken": list(broken.values())}
 
 
 def run(ctx):
@@ -911,6 +952,7 @@ def run(ctx):
     states = trans = execs = 0
     per = {"heal": 0, "swarm": 0, "tools": 0}
     notes = {}
+    broken = {}
     for j, (i, _t) in enumerate(tasks):  # merge in canonical order: independent of seed and of process count
         r = results[j]
         cfg = cfgs[i]
@@ -923,6 +965,10 @@ def run(ctx):
                 ctx.report(key, what, case)
         for k, n in r["notes"].items():
             notes[k] = notes.get(k, 0) + n
+        for msg, tb, case, cnt in r["broken"]:
+            broken.setdefault(msg, [msg, tb, case, 0])[3] += cnt
+    for msg, tb, case, cnt in broken.values():
+        ctx.defer_harness_error(f"a harness step failed in {cnt} executions ({msg}); first case {common.jsonable(case)}\n{tb}")
     trans = states - len(cfgs)
     bounded = [cfg for cfg in cfgs if cfg["max_dev"] is not None]
     bounded_by = {}
@@ -979,7 +1025,9 @@ def run(ctx):
         "completion markers are the five documented ones (SUCCESS, SOLVED, COMPLETE, DONE, FINISHED), case-insensitive",
         "the exception flavour / falsy return value of the tool function is fixed per configuration (4 flavours), all "
         "other exception flavours are per-call answers",
-        "with omitted limits the budget is the documented default read from the public attribute / signature",
+        "the budget is what the caller passed; with omitted limits it is the documented default (the int default of the "
+        "public constructor / method signature, else the documented 3 retries, 3 regenerations x 10 steps, 10 iterations); "
+        "the objects' public limit attributes are only observed, never used as the budget",
         "exception classes: every builtin Exception subclass (no warnings) constructible with () and with (message) -- "
         "explored as single deviations only; two differently-classed exceptions in one run are not explored",
         "environment callables accept any call signature; every invocation is counted, whatever its arguments",
